@@ -621,6 +621,18 @@ fn run_conflict_case(c: &MergeCase, master: &ADoc, st: &mut Stats) -> Result<(),
         out
     }
     let views = [without(&master.root, &path, xb), without(&master.root, &path, xa)];
+    let describe = {
+        let mut n = &master.root;
+        let mut names = vec![];
+        for i in &path {
+            if let AContent::Elem(e) = &n.content[*i] {
+                names.push(format!("{}{}", e.name, e.item_name().map(|x| format!("[{x}]")).unwrap_or_default()));
+                n = e;
+            }
+        }
+        let kid = |i: usize| if let AContent::Elem(e) = &n.content[i] { format!("<{}>{}", e.name, e.item_name().map(|x| format!(" {x}")).unwrap_or_default()) } else { String::new() };
+        format!("diverging below /{} (file0 keeps {}, file1 keeps {}; same kind: {same_kind}; parent not splittable in both versions: {nonsplit_all})", names.join("/"), kid(xa), kid(xb))
+    };
     let names = ["file0.arxml".to_string(), "file1.arxml".to_string()];
     let mut texts = vec![];
     for i in 0..2 {
@@ -637,7 +649,7 @@ fn run_conflict_case(c: &MergeCase, master: &ADoc, st: &mut Stats) -> Result<(),
     st.class(if fv[0] != fv[1] { "conflict:files-of-different-versions" } else { "conflict:files-of-one-version" });
     st.nontrivial(fnv(&texts[0]) ^ fnv(&texts[1]).rotate_left(7));
     let show = || format!("--- file0.arxml ({:?}) ---\n{}\n--- file1.arxml ({:?}) ---\n{}", fv[0], String::from_utf8_lossy(&texts[0][..texts[0].len().min(1800)]), fv[1], String::from_utf8_lossy(&texts[1][..texts[1].len().min(1800)]));
-    let fail = |sig: &str, msg: String| Failure::new(sig, format!("{msg}\n{}", show()), c.to_json());
+    let fail = |sig: &str, msg: String| Failure::new(sig, format!("{msg}\n{describe}\n{}", show()), c.to_json());
     let mut verdicts: Vec<Result<String, String>> = vec![];
     for order in [[0usize, 1], [1, 0]] {
         let m = AutosarModel::new();
@@ -674,6 +686,10 @@ fn run_conflict_case(c: &MergeCase, master: &ADoc, st: &mut Stats) -> Result<(),
             st.class("conflict:accepted-by-both-orders(parent splittable in one of the versions)");
         }
         (Err(_), Err(_)) => st.class("conflict:rejected-by-both-orders"),
+        (a, b) if !same_kind => {
+            // KF-C09-4 as well: a conflict between children of different kinds is accepted in one of the two orders
+            return Err(fail("merge:conflict-of-different-kinds-accepted", format!("files that diverge with children of different kinds: order [0,1] {}, order [1,0] {}", if a.is_ok() { "accepted" } else { "rejected" }, if b.is_ok() { "accepted" } else { "rejected" })));
+        }
         (a, b) => {
             return Err(fail("merge:verdict-depends-on-load-order", format!("order [0,1]: {}; order [1,0]: {}", if a.is_ok() { "accepted".to_string() } else { format!("rejected ({})", a.clone().unwrap_err()) }, if b.is_ok() { "accepted".to_string() } else { format!("rejected ({})", b.clone().unwrap_err()) })));
         }
